@@ -26,6 +26,7 @@ CONSTANTS Dim,               \* 1 | 2
           Alphabet,          \* which calls the histories are made of: "classic" | "modes" | "export"
           FwdImpl,           \* "plain" | "cache": (sanity) eval + no_grad forward passes that skip the weight sampler
           ExpImpl,           \* "fresh" | "memo" : (sanity) export() memoised on the reported assignment
+          ForkImpl,          \* "own" | "shared": (sanity) a deep copy whose samplers stay bound to the ORIGINAL's quantisers
           TupMode,           \* which configurations: "one" | "pairs" | "few" | "pc" | "pc1" | "ne16"
           WType,             \* "pl" | "pc"
           SelMode,           \* "all" | "rot" : every winner function / three rotations per configuration
@@ -45,7 +46,8 @@ VARIABLES arch, phase, gs, cfg, sel,
                    \*  returned, -1: none), ekey (assignment at the last export), eat (weight version at the last export)]
 
 vars == <<arch, phase, gs, cfg, sel, smp, fresh, hist, env>>
-Env0 == [mode |-> "eval", cached |-> FALSE, wver |-> 0, snap |-> -1, ekey |-> <<>>, eat |-> 0]
+\* forked: the history continues on a deep copy of the model (the original was perturbed after the copy was taken)
+Env0 == [mode |-> "eval", cached |-> FALSE, wver |-> 0, snap |-> -1, ekey |-> <<>>, eat |-> 0, forked |-> FALSE]
 
 Node(op, ins, out, k, dw, bn, ru) ==
     [op |-> op, ins |-> ins, out |-> out, k |-> k, d |-> 1, s |-> 1, bias |-> TRUE, bn |-> bn,
@@ -155,12 +157,18 @@ Select == /\ phase = "sealed"
 (* The calls and what they do to the mode / to theta are defined in MPSLife (ModeAfter, ThetaAfter).  Here the   *)
 (* REFERENCE behaviour: a forward pass in eval / hard mode samples the arg-max of the current coefficients,      *)
 (* whatever the autograd mode; export() converts the CURRENT weights.  Two sanity variants (expected to fail):   *)
+(* fork: obj := deepcopy(obj); the ORIGINAL is then perturbed (other coefficients, other options / temperature, forward  *)
+(* passes) and the history continues on the copy: the reference state of the copy is the state at the fork (the call     *)
+(* changes nothing: mode, coefficients, theta, weights, caches are those of the original at that moment); loadT:         *)
+(* load_state_dict of another temperature (no effect on an arg-max).  Sanity variant ForkImpl = "shared": the samplers   *)
+(* of the copy stay bound to the original's quantisers, a forward pass of the copy never re-samples its own theta.       *)
 (* FwdImpl = "cache": an eval forward under no_grad re-uses cached quantised weights and skips the weight        *)
 (* sampler until the next mode switch;  ExpImpl = "memo": export() returns the module converted earlier when the *)
 (* reported assignment did not change.                                                                           *)
 Acts == CASE Alphabet = "classic" -> {"fwd_eval", "fwd_hard", "fwd_ghard", "load", "export", "summary", "upd"}
           [] Alphabet = "modes"   -> {"to_eval", "to_hard", "to_ghard", "fwd_g", "fwd_n", "load", "copy"}
           [] Alphabet = "export"  -> {"fwd_n", "to_eval", "sgd_net", "sgd_all", "export", "load"}
+          [] Alphabet = "fork"    -> {"fwd_n", "fwd_g", "to_hard", "fork", "copy", "loadT", "export"}
 MaxW == 2
 Step(act) ==
     /\ phase = "sel" /\ Len(hist) < MaxHist
@@ -170,6 +178,7 @@ Step(act) ==
            switch == act \in {"to_eval", "to_hard", "to_ghard", "fwd_eval", "fwd_hard", "fwd_ghard", "sgd_net", "sgd_all"}
            nograd == act \in {"fwd_n", "fwd_eval", "fwd_hard", "fwd_ghard"}
            usecache == FwdImpl = "cache" /\ m1 = "eval" /\ nograd /\ env.cached /\ ~switch
+           foreign  == ForkImpl = "shared" /\ env.forked          \* the copy's forward samples the original, not itself
        IN
        /\ fresh' = ThetaAfter(act, fresh, m1)
        /\ IF IsAlphaWrite(act)
@@ -177,6 +186,7 @@ Step(act) ==
                                /\ smp' = IF fresh = "soft" /\ act # "sgd_all" THEN sel' ELSE IF act = "sgd_all" THEN sel ELSE smp
           ELSE /\ sel' = sel
                /\ IF ~IsForward(act) THEN smp' = smp
+                  ELSE IF foreign THEN smp' = smp
                   ELSE IF m1 = "ghard" THEN \E k \in 0..2 : smp' = RotSel(gs, arch, cfg, k)
                   ELSE smp' = [a |-> sel.a, w |-> IF usecache THEN smp.w ELSE sel.w]
        /\ env' = [mode   |-> m1,
@@ -186,7 +196,8 @@ Step(act) ==
                   snap   |-> IF act # "export" THEN env.snap
                              ELSE IF ExpImpl = "memo" /\ env.snap >= 0 /\ env.ekey = sel THEN env.snap ELSE env.wver,
                   ekey   |-> IF act = "export" THEN sel ELSE env.ekey,
-                  eat    |-> IF act = "export" THEN env.wver ELSE env.eat]
+                  eat    |-> IF act = "export" THEN env.wver ELSE env.eat,
+                  forked |-> env.forked \/ act = "fork"]
     /\ UNCHANGED <<arch, phase, gs, cfg>>
 
 Next == Grow \/ Seal \/ Select \/ \E act \in Acts : Step(act)
